@@ -136,6 +136,8 @@ func (f *DocumentTitleMatch) processPotentialTitle(title string) {
 		return
 	}
 
+	f.potentialTitles[title] = struct{}{}
+
 	for _, rx := range rxDtmLongestPartPatterns {
 		if p := f.getLongestPart(title, rx); p != "" {
 			f.potentialTitles[p] = struct{}{}
